@@ -455,6 +455,70 @@ def replay_zncc_bands(cex):
     return {'violates': False, 'detail': 'multiband and single-band zncc agree'}
 
 
+def mean_raster_fp(H=3, W=2, win=1, cap=120, block=()):
+    """compute_mean_raster in the bit-precise float domain: for integer-valued float32 samples up to 2^24 the window sums must be exact
+    (the code accumulates in float64), wherever the window sits in the image: with a 1x1 window the result IS the sample; with a larger
+    window it is the float64 quotient of the exact integer sum.  (A float32 accumulator rounds sums above 2^24 and makes the zncc
+    statistics depend on the row position.)"""
+    import xarray as xr
+    from vf import symnp as S, instr
+    from vf.explore import EX, explore
+    from vf.hutil import Collector
+    import pandora.img_tools as IT
+    col = Collector(cap_s=cap, block=list(block))
+    info = {}
+    S.MODE['exact'] = False
+    F32, F64, RNE = z3.Float32(), z3.Float64(), z3.RNE()
+
+    def h():
+        im = S.fresh_array('im', (H, W), 'f4')
+        col.shapes = {'im': ((H, W), 'f4')}
+        for e in im._a.flat:
+            EX.assume(z3.And(z3.fpGEQ(e.t, z3.FPVal(0.0, F32)), z3.fpLEQ(e.t, z3.FPVal(float(2 ** 24), F32)), z3.fpRoundToIntegral(RNE, e.t) == e.t))
+        ds = xr.Dataset({"im": (["row", "col"], im)}, coords={"row": np.arange(H), "col": np.arange(W)})
+        ex = {'mean_raster_fp': True, 'H': H, 'W': W, 'win': win}
+        try:
+            out = IT.compute_mean_raster(ds, win)
+        except S.Unsupported:
+            raise
+        except Exception as e:      # noqa
+            col.path_exception(e, label='p%d' % len(EX.trace), extra=ex); return
+        props = [("shape", z3.BoolVal(tuple(out.shape) == (H - win + 1, W - win + 1)))]
+        if tuple(out.shape) == (H - win + 1, W - win + 1):
+            for r in range(H - win + 1):
+                for c in range(W - win + 1):
+                    o = S.lift(out._a[r, c], 'f8')
+                    tot = None
+                    for dr in range(win):
+                        for dc in range(win):
+                            v = z3.fpToFP(RNE, im._a[r + dr, c + dc].t, F64)
+                            tot = v if tot is None else z3.fpAdd(RNE, tot, v)        # exact: integers below 2^53
+                    exp = z3.fpDiv(RNE, tot, z3.FPVal(float(win * win), F64))
+                    props.append(("window-mean-is-the-double-precision-quotient-of-the-exact-sum[%d,%d]" % (r, c), z3.fpEQ(o, exp)))
+        col.check_path(props, label='p%d' % len(EX.trace), extra=ex, group=False, witnesses=[("reached", z3.BoolVal(True))])
+        info['fn'] = instr.fn_hash(IT.compute_mean_raster)
+    res, stats = explore(h, max_paths=8)
+    return col.result(stats, functions=info.get('fn', {}), bounds={'image': [H, W], 'window': win, 'samples': 'integer-valued float32 in [0, 2^24], bit-precise'})
+
+
+def replay_mean_raster(cex):
+    import xarray as xr
+    import pandora.img_tools as IT
+    x = cex['extra']; H, W, win = x['H'], x['W'], x['win']
+    im = np.array(cex['inputs']['im'], np.float32).reshape(H, W)
+    ds = xr.Dataset({"im": (["row", "col"], im.copy())}, coords={"row": np.arange(H), "col": np.arange(W)})
+    try:
+        out = np.asarray(IT.compute_mean_raster(ds, win), dtype=np.float64)
+    except Exception as e:      # noqa
+        return {'violates': True, 'detail': 'compute_mean_raster raised %r' % (e,)}
+    for r in range(H - win + 1):
+        for c in range(W - win + 1):
+            exp = float(im[r:r + win, c:c + win].astype(np.float64).sum()) / float(win * win)
+            if float(out[r, c]) != exp:
+                return {'violates': True, 'detail': 'window mean at (%d,%d) is %r, the exact sum of the samples %s over %d is %r' % (r, c, float(out[r, c]), im[r:r + win, c:c + win].tolist(), win * win, exp)}
+    return {'violates': False, 'detail': 'window means are exact'}
+
+
 def replay_zncc(cex):
     import xarray as xr
     from pandora import matching_cost
@@ -590,6 +654,8 @@ def replay(cex):
         return replay_zncc(cex)
     if cex['extra'].get('zncc_bands'):
         return replay_zncc_bands(cex)
+    if cex['extra'].get('mean_raster_fp'):
+        return replay_mean_raster(cex)
     x = cex['extra']; inp = cex['inputs']
     H, W, ws, dmin, dmax, method = x['H'], x['W'], x['ws'], x['dmin'], x['dmax'], x['method']
     bands = x.get('bands'); band = x.get('band'); col0 = x.get('col0', 0)
